@@ -36,7 +36,7 @@ LEVEL_TEXT = (
 LEVEL_NOTE = "Trusted: numpy float64 arithmetic, the C07 reference model (vmon/ref.py); edge points within the stated margin are either-way."
 TECHNIQUE = "runtime postcondition monitor on block_split (all aliases rebound) with an independent floor-arithmetic reference labelling; seeded hostile point clouds incl. exact edge/corner/outside points"
 FLOORS = {
-    "quick": {"eval:block_split": 1600, "eval:label": 120000, "distinct_nontrivial": 1200, "points:edge": 15000, "points:outside": 15000, "eval:layout_pair": 200, "class:dtype_int_east_float_north": 30, "class:dtype_float32_both": 30},
+    "quick": {"eval:block_split": 1600, "eval:label": 120000, "distinct_nontrivial": 1200, "points:edge": 15000, "points:outside": 15000, "eval:layout_pair": 200, "class:dtype_int_east_float_north": 30, "class:dtype_float32_both": 30, "class:history_calls": 160},
     "thorough": {"eval:block_split": 25000, "eval:label": 2000000, "distinct_nontrivial": 20000, "points:edge": 200000, "points:outside": 200000},
 }
 JOBS = {"quick": 1, "thorough": 16}
@@ -47,8 +47,8 @@ AMBIENT_FILES = ['test_blockreduce.py', 'test_model_selection.py', 'test_project
 
 def plan(tier):
     if tier == "quick":
-        return collections.OrderedDict(random=240, edges=160, outside=120, layouts=100, dtypes=80, nested=40)
-    return collections.OrderedDict(random=4000, edges=2500, outside=2000, layouts=1500, dtypes=1500, nested=600, ambient=4)
+        return collections.OrderedDict(random=240, edges=160, outside=120, layouts=100, dtypes=80, history=40, nested=40)
+    return collections.OrderedDict(random=4000, edges=2500, outside=2000, layouts=1500, dtypes=1500, history=800, nested=600, ambient=4)
 
 
 # ----------------------------------------------------------------------
@@ -313,6 +313,36 @@ def run_case(run, tap, stream, index, rng):
                                       {"easting": ce, "northing": cn, "kwargs": kwargs, "labels": got, "labels_float64": want}, key="dtype:" + name)
                 run.count("class:dtype_" + name)
             run.sample("dtypes", {"n_points": npts, "kwargs": kwargs})
+        elif stream == "history":
+            # call histories in one process: same region and block layout with another block size / adjust mode, twin clouds with
+            # equal bounding box and size, the same ndarray objects modified in place, returned arrays edited by the caller
+            npts = int(rng.choice([30, 120, 400]))
+            east, north = gen.cloud(rng, npts, kind="uniform", offset_factor=float(rng.choice([0, 1])))
+            region = [float(east.min()), float(east.max()), float(north.min()), float(north.max())]
+            w, e, s_, n = region
+            q = rng.uniform(2.2, 7.8)
+            sp = float(min(e - w, n - s_) / q)
+            steps = [
+                dict(spacing=sp), dict(spacing=sp, adjust="region"), dict(spacing=sp * rng.uniform(0.9, 1.1), adjust="region"),
+                dict(spacing=(sp, sp * 1.3), adjust="region"), dict(spacing=sp), dict(shape=(max(int(q), 1), max(int(q), 1))),
+            ]
+            for kw in steps:
+                kw = dict(kw, region=region) if rng.random() < 0.7 else kw
+                centres, labels = vd.block_split((east, north), **kw)
+                for arr in list(centres) + [labels]:
+                    if arr.flags.writeable:
+                        arr[...] = 0  # the caller scribbles on what was returned
+                run.count("class:history_calls")
+            # twin cloud: same size, same bounding box, other interior points (reflection about the midrange)
+            twin = (w + e - east, s_ + n - north)
+            vd.block_split(twin, spacing=sp, adjust="region", region=region)
+            vd.block_split((east, north), spacing=sp, adjust="region", region=region)
+            # same objects modified in place
+            east += 0.37 * (e - w)
+            north *= 0.5
+            vd.block_split((east, north), spacing=sp)
+            vd.block_split((east, north), spacing=sp, adjust="region", region=region)
+            run.count("class:history_calls", 4)
         elif stream == "nested":
             npts = int(rng.integers(30, 200))
             east, north = gen.cloud(rng, npts, offset_factor=float(rng.choice([0, 1, 30])))
